@@ -57,11 +57,13 @@ class Session:
         driver.configure(cfg)
         driver.reset()
 
-    def send(self, frames, chain=0, grp=0, pair=0, timeout=45):
+    def send(self, frames, chain=0, grp=0, pair=0, timeout=None):
         """Run frames; returns the observations (dicts with out/rep/tcb/log), one per frame.
         An abort of the responder is recorded as such; the driver is then restarted (empty
         connection table, recorded as a reset) and the remaining frames are still run."""
         frames = [bytes(f) for f in frames]
+        if timeout is None:
+            timeout = 40 + 0.01 * len(frames)       # watchdog: generous even on a loaded machine
         all_obs = []
         pos = 0
         while pos < len(frames):
